@@ -9,7 +9,10 @@ Import ListNotations.
 
 (* ---- the averaging rule, for all parameters and all tau ---- *)
 Theorem C08_polyak_law : forall tau p t : Q,
-  (polyak tau p t == t * polyak_scale tau + polyak_alpha tau * p)%Q /\
+  (let t1 := (t * polyak_scale tau)%Q in
+   (polyak tau p t == polyak_add_a t1 p tau + polyak_alpha t1 p tau * polyak_add_b t1 p tau)%Q /\
+   polyak_out t1 p tau = t1 /\
+   (polyak_scale_op, polyak_add_op, polyak_zip, polyak_zip_first, polyak_zip_second) = (1, 1, 1, 1, 2)%Z) /\
   (polyak tau p t == (1 - tau) * t + tau * p)%Q.
 Proof. exact (fun tau p t => conj (frag_polyak tau p t) (polyak_law tau p t)). Qed.
 Print Assumptions C08_polyak_law.
@@ -60,8 +63,8 @@ Print Assumptions C08_update_online_untouched.
    statistic becomes a COPY of the online one (the regenerated coefficient of the second polyak_update call is 1.0),
    for DQN, SAC and both TD3/DDPG pairs; flag not set: the targets are not written *)
 Theorem C08_update_instant : forall tau s np ns i,
-  let steps := [unit_step (dqn_param_tau tau) (dqn_bn_tau tau); unit_step (sac_param_tau tau) (sac_bn_tau tau);
-                unit_step (td3_critic_param_tau tau) (td3_critic_bn_tau tau); unit_step (td3_actor_param_tau tau) (td3_actor_bn_tau tau)] in
+  let steps := [unit_step (dqn_pu0_tau tau) (dqn_pu1_tau tau); unit_step (sac_pu0_tau tau) (sac_pu1_tau tau);
+                unit_step (td3_pu0_tau tau) (td3_pu2_tau tau); unit_step (td3_pu1_tau tau) (td3_pu3_tau tau)] in
   Forall (fun step =>
     (tg_params (step s (np, ns, false)) = tg_params s /\ tg_stats (step s (np, ns, false)) = tg_stats s) /\
     on_params (step s (np, ns, true)) = np /\ on_stats (step s (np, ns, true)) = ns /\
@@ -79,6 +82,39 @@ Proof.
       (Forall_cons _ (one tau 1%Q (Qeq_refl 1)) (Forall_cons _ (one tau 1%Q (Qeq_refl 1)) (Forall_nil _))))).
 Qed.
 Print Assumptions C08_update_instant.
+
+(* which lists every polyak_update call pairs (ids 1/2 q_net, 3/4 batch_norm_stats, 5/6 critic, 7/8 actor, 9/10 critic stats,
+   11/12 actor stats: source = online, target = its target) and with which coefficient *)
+Theorem C08_polyak_calls : forall tau : Q,
+  (dqn_pu0_src, dqn_pu0_dst, dqn_pu1_src, dqn_pu1_dst) = (1, 2, 3, 4)%Z /\ dqn_pu0_tau tau = tau /\ (dqn_pu1_tau tau == 1)%Q /\
+  (sac_pu0_src, sac_pu0_dst, sac_pu1_src, sac_pu1_dst) = (5, 6, 3, 4)%Z /\ sac_pu0_tau tau = tau /\ (sac_pu1_tau tau == 1)%Q /\
+  (td3_pu0_src, td3_pu0_dst, td3_pu1_src, td3_pu1_dst, td3_pu2_src, td3_pu2_dst, td3_pu3_src, td3_pu3_dst) = (5, 6, 7, 8, 9, 10, 11, 12)%Z /\
+  td3_pu0_tau tau = tau /\ td3_pu1_tau tau = tau /\ (td3_pu2_tau tau == 1)%Q /\ (td3_pu3_tau tau == 1)%Q.
+Proof. exact frag_polyak_calls. Qed.
+Print Assumptions C08_polyak_calls.
+
+(* a length mismatch between online and target lists is an error (None), as zip_strict raises; otherwise the update is target_update *)
+Theorem C08_target_update_strict : forall ptau stau s,
+  (length (on_params s) = length (tg_params s) /\ length (on_stats s) = length (tg_stats s) ->
+   target_update_strict ptau stau s = Some (target_update ptau stau s)) /\
+  (length (on_params s) <> length (tg_params s) \/ length (on_stats s) <> length (tg_stats s) -> target_update_strict ptau stau s = None).
+Proof. exact target_update_strict_spec. Qed.
+Print Assumptions C08_target_update_strict.
+
+(* the ACTUAL cadence counters drive the units (flags = dqn_steps m c; DQN: m = period, c = _n_calls, units = vectorised env steps;
+   TD3/DDPG: m = policy_delay, c = _n_updates, units = all gradient steps; SAC: m = interval, c = -1, units = one train() call):
+   over a stretch u2 that contains no update instant the targets and their running statistics are not written *)
+Theorem C08_cadence_no_write_between_updates : forall ptau stau s m c u1 u2,
+  (forall t, (t < length u2)%nat -> (c + Z.of_nat (length u1) + Z.of_nat t + 1) mod m <> 0)%Z ->
+  let run us := units_run ptau stau s (with_flags us (dqn_steps m c (length us))) in
+  tg_params (run (u1 ++ u2)) = tg_params (run u1) /\ tg_stats (run (u1 ++ u2)) = tg_stats (run u1).
+Proof. exact cadence_no_write_between_updates. Qed.
+Print Assumptions C08_cadence_no_write_between_updates.
+
+Theorem C08_cadence_flags_td3_sac : forall delay c gs tui g,
+  td3_calls delay c gs = dqn_steps delay c (fold_right Nat.add 0%nat gs) /\ sac_train tui g = dqn_steps tui (-1) g.
+Proof. exact cadence_flags_td3_sac. Qed.
+Print Assumptions C08_cadence_flags_td3_sac.
 
 Theorem C08_no_write_between_updates : forall ptau stau us s, forallb (fun u => negb (snd u)) us = true ->
   tg_params (units_run ptau stau s us) = tg_params s /\ tg_stats (units_run ptau stau s us) = tg_stats s.
